@@ -221,11 +221,46 @@ def run_stages(ex, it, x):
         if kind == 'map': x = call_closure(ex, clo, [x])
         elif kind == 'filter':
             if not ex.truth(call_closure(ex, clo, [Ref(LCell(Cell(x)))])): return False, None
+        elif kind == 'filter_map':
+            r = call_closure(ex, clo, [x])
+            if r.variant != 'Some': return False, None
+            x = r.f[0].v
     return True, x
 def m_iter_mut(ex, a, t): return IterObj([Ref(LCell(c)) for c in target(a[0]).items])
 def m_into_iter(ex, a, t): return IterObj([c.v for c in a[0].items])
 def m_it_map(ex, a, t): return IterObj(a[0].items, a[0].stages + [('map', a[1])])
 def m_it_filter(ex, a, t): return IterObj(a[0].items, a[0].stages + [('filter', a[1])])
+def m_it_filter_map(ex, a, t): return IterObj(a[0].items, a[0].stages + [('filter_map', a[1])])
+def m_it_rev(ex, a, t): return IterObj(list(reversed(a[0].items)), a[0].stages)
+def m_it_all(ex, a, t):
+    it = target(a[0]); res = z3.BoolVal(True)
+    for x in it.items:
+        keep, v = run_stages(ex, it, x)
+        if not keep: continue
+        res = z3.simplify(z3.And(res, call_closure(ex, a[1], [v])))
+        if z3.is_false(res): break
+    it.items = []
+    return res
+def m_it_find(ex, a, t):
+    it = target(a[0])
+    while it.items:
+        x = it.items.pop(0); keep, v = run_stages(ex, it, x)
+        if keep and ex.truth(call_closure(ex, a[1], [Ref(LCell(Cell(v)))])): return Enum('Option', 'Some', [v])
+    return Enum('Option', 'None')
+def m_it_position(ex, a, t):
+    it = target(a[0]); k = 0
+    while it.items:
+        x = it.items.pop(0); keep, v = run_stages(ex, it, x)
+        if not keep: continue
+        if ex.truth(call_closure(ex, a[1], [v])): return Enum('Option', 'Some', [z3.BitVecVal(k, 64)])
+        k += 1
+    return Enum('Option', 'None')
+def m_it_count(ex, a, t):
+    it = a[0]; n = 0
+    for x in it.items:
+        keep, v = run_stages(ex, it, x)
+        if keep: n += 1
+    return z3.BitVecVal(n, 64)
 def m_it_for_each(ex, a, t):
     for x in a[0].items:
         keep, v = run_stages(ex, a[0], x)
@@ -292,7 +327,8 @@ def m_token(ex, a, t): return a[0] if a else Opaque('tok')
 
 MODELS += [
     (r'(?:^|::)core::slice::<impl \[.*\]>::iter_mut$', m_iter_mut), (r'as IntoIterator>::into_iter$', m_into_iter),
-    (r'as Iterator>::map::<', m_it_map), (r'as Iterator>::filter::<', m_it_filter),
+    (r'as Iterator>::map::<', m_it_map), (r'as Iterator>::filter::<', m_it_filter), (r'as Iterator>::filter_map::<', m_it_filter_map),
+    (r'as Iterator>::rev$', m_it_rev), (r'as Iterator>::all::<', m_it_all), (r'as Iterator>::find::<', m_it_find), (r'as Iterator>::position::<', m_it_position), (r'as Iterator>::count$', m_it_count),
     (r'as Iterator>::for_each::<', m_it_for_each), (r'as Iterator>::collect::<', m_it_collect),
     (r'(?:^|::)Option::<.*>::take$', m_opt_take), (r'(?:^|::)Option::<.*>::unwrap$', m_opt_unwrap),
     (r'(?:^|::)Result::<.*>::expect$', m_res_expect), (r'(?:^|::)Result::<.*>::unwrap_or_else::<', m_res_unwrap_or_else),
